@@ -209,13 +209,16 @@ func daemonCase(w *run.Worker, c *run.Case) {
 			// Clause K: everything acknowledged before a commit that the
 			// harness OBSERVES (in the state file) and that is still served
 			// right before the process is killed must be served after the
-			// restart. Epochs are synchronised in order and at most one epoch
-			// is opened per sync round, so objects acknowledged before the
-			// state file showed next epoch N0 live in epochs <= N0+1: a state
-			// file with next epoch >= N0+2 covers them. Polling has a bounded
-			// number of rounds; not observing the commit gives no verdict.
+			// restart. The next epoch id in the state file only grows when a
+			// put round (data sync + state write) completes; rounds are
+			// sequential and a round covers everything written before it
+			// started. Seeing the id grow twice after the acknowledgements
+			// therefore proves a round that started after them. (The amount
+			// it grows by says nothing: an epoch is also opened per block.)
+			// Polling is bounded; not observing this gives no verdict.
 			acked := len(objs)
 			n0, ok := daemon.NextEpochID(dir)
+			last, increases := n0, 0
 			observed := false
 			for i := 0; i < 60 && !observed; i++ {
 				next++
@@ -229,11 +232,20 @@ func daemonCase(w *run.Worker, c *run.Case) {
 					// no state file yet when the uploads were acknowledged: start counting from the first one seen
 					if ok2 {
 						n0, ok = n, true
+						last = n
 						acked = len(objs)
 					}
 					continue
 				}
-				observed = ok2 && n >= n0+2
+				// Two successive increases seen by the poll: the first state
+				// was written after the acknowledgements (its round may have
+				// started before them), the second comes from a later round,
+				// which therefore started after them and covers them.
+				if ok2 && n > last {
+					last = n
+					increases++
+				}
+				observed = increases >= 2
 			}
 			if observed {
 				w.Count("daemon_kills_after_observed_commit", 1)
